@@ -32,6 +32,7 @@ package gtfs
 
 //@ func parseDirectionID_GTFSRealtime
 //@   props C02
+//@   inline
 //@   ensures [absent] raw == nil ==> result == DirectionID_Unspecified
 //@   ensures [zero] raw != nil && *raw == 0 ==> result == DirectionID_False
 //@   ensures [one] raw != nil && *raw == 1 ==> result == DirectionID_True
@@ -76,6 +77,7 @@ package gtfs
 
 //@ func parseRouteType_GTFSRealtime
 //@   props C02 C12
+//@   inline
 //@   ensures [absent] raw == nil ==> result == RouteType_Unknown
 //@   ensures [d0] raw != nil && *raw == 0 ==> result == RouteType_Tram
 //@   ensures [d3] raw != nil && *raw == 3 ==> result == RouteType_Bus
@@ -382,6 +384,7 @@ package gtfs
 //@   ensures [direction-absent] tripDesc.DirectionId == nil ==> result.DirectionID == DirectionID_Unspecified
 //@   ensures [direction-0] tripDesc.DirectionId != nil && *tripDesc.DirectionId == 0 ==> result.DirectionID == DirectionID_False
 //@   ensures [direction-1] tripDesc.DirectionId != nil && *tripDesc.DirectionId == 1 ==> result.DirectionID == DirectionID_True
+//@   ensures [direction-decoder] result.DirectionID == parseDirectionID_GTFSRealtime(tripDesc.DirectionId)
 //@   ensures [start-time] result.HasStartTime == (tripDesc.StartTime != nil && isHMS(*tripDesc.StartTime)) && (result.HasStartTime ==> result.StartTime == hmsNanos(*tripDesc.StartTime))
 //@   ensures [start-date] result.HasStartDate == (tripDesc.StartDate != nil && isYMD(*tripDesc.StartDate)) && (result.HasStartDate ==> result.StartDate == civilMidnight(toInt((*tripDesc.StartDate)[0:4]), toInt((*tripDesc.StartDate)[4:6]), toInt((*tripDesc.StartDate)[6:8]), tzOf(opts)))
 //@   ensures [schedule-relationship-absent] tripDesc.ScheduleRelationship == nil ==> result.ScheduleRelationship == 0
@@ -466,3 +469,52 @@ package gtfs
 //@   loop 1 invariant [arr] forall k int :: 0 <= k && k < $i ==> eventFaithful(trip.StopTimeUpdates[k].Arrival, tripUpdate.StopTimeUpdate[k].Arrival, tzOf(opts))
 //@   loop 1 invariant [dep] forall k int :: 0 <= k && k < $i ==> eventFaithful(trip.StopTimeUpdates[k].Departure, tripUpdate.StopTimeUpdate[k].Departure, tzOf(opts))
 //@   loop 1 invariant trip.IsEntityInMessage && trip.Vehicle == nil && trip.ID.ID == strOrEmpty(tripUpdate.Trip.TripId) && trip.ID.RouteID == strOrEmpty(tripUpdate.Trip.RouteId)
+
+// ----------------------------------------------------------------------------------------------------------------
+// C12 — alerts
+
+//@ pure func wfAlert(a *gtfsrt.Alert) bool = a != nil && (forall k int :: 0 <= k && k < len(a.ActivePeriod) ==> a.ActivePeriod[k] != nil) && (forall k int :: 0 <= k && k < len(a.InformedEntity) ==> a.InformedEntity[k] != nil) && wfText(a.HeaderText) && wfText(a.DescriptionText) && wfText(a.Url)
+//@ pure func wfText(t *gtfsrt.TranslatedString) bool = t == nil || (forall k int :: 0 <= k && k < len(t.Translation) ==> t.Translation[k] != nil)
+//@ pure func informsSomething(e AlertInformedEntity) bool = e.AgencyID != nil || e.RouteID != nil || e.RouteType != RouteType_Unknown || e.StopID != nil || identifiable(e.TripID)
+// the entity a selector is transcribed to (C12: "represented ... by an entity with exactly those values")
+//@ pure func transcribes(e AlertInformedEntity, sel *gtfsrt.EntitySelector) bool = e.AgencyID == sel.AgencyId && e.RouteID == sel.RouteId && e.StopID == sel.StopId && e.RouteType == parseRouteType_GTFSRealtime(sel.RouteType) && e.DirectionID == parseDirectionID_GTFSRealtime(sel.DirectionId) && (e.TripID != nil ==> sel.Trip != nil && identifiable(e.TripID) && e.TripID.ID == strOrEmpty(sel.Trip.TripId) && e.TripID.RouteID == strOrEmpty(sel.Trip.RouteId))
+
+// a selector whose trip descriptor names only a route (C12, last sentence)
+//@ pure func routeOnly(sel *gtfsrt.EntitySelector) bool = sel.Trip != nil && sel.Trip.RouteId != nil && *sel.Trip.RouteId != "" && strOrEmpty(sel.Trip.TripId) == "" && !(parseDirectionID_GTFSRealtime(sel.Trip.DirectionId) != DirectionID_Unspecified && sel.Trip.StartTime != nil && isHMS(*sel.Trip.StartTime) && sel.Trip.StartDate != nil && isYMD(*sel.Trip.StartDate))
+// the route-level entity the fallback appends for route r with recorded directions dirs
+//@ pure func fallbackFor(e AlertInformedEntity, r string, dirs ?) bool = e.RouteID != nil && *e.RouteID == r && e.RouteType == RouteType_Unknown && e.TripID == nil && e.AgencyID == nil && e.StopID == nil && e.DirectionID == ((dirs[DirectionID_False] && dirs[DirectionID_True]) ? DirectionID_Unspecified : (dirs[DirectionID_False] ? DirectionID_False : DirectionID_True))
+
+//@ func buildAlertText
+//@   props C02 C05
+//@   requires wfText(ts)
+//@   ensures [absent] ts == nil ==> len(result) == 0
+//@   ensures [one-per-translation] ts != nil ==> len(result) == len(ts.Translation)
+//@   ensures [faithful] ts != nil ==> (forall k int :: 0 <= k && k < len(result) ==> result[k].Text == strOrEmpty(ts.Translation[k].Text) && result[k].Language == strOrEmpty(ts.Translation[k].Language))
+//@   loop 1 invariant len(texts) == $i && fresh(texts)
+//@   loop 1 invariant forall k int :: 0 <= k && k < $i ==> texts[k].Text == strOrEmpty(ts.Translation[k].Text) && texts[k].Language == strOrEmpty(ts.Translation[k].Language)
+//@   assigns nothing
+
+//@ func parseAlert
+//@   props C02 C05 C12
+//@   requires wfAlert(alert) && opts != nil
+//@   ensures [alert] result.0 != nil && fresh(result.0) && result.0.ID == ID
+//@   ensures [every-entity-informs] forall k int :: 0 <= k && k < len(result.0.InformedEntities) ==> informsSomething(result.0.InformedEntities[k])
+//@   ensures [trip-ids-identify] forall k int :: 0 <= k && k < len(result.0.InformedEntities) ==> (result.0.InformedEntities[k].TripID != nil ==> identifiable(result.0.InformedEntities[k].TripID))
+//@   ensures [active-periods] len(result.0.ActivePeriods) == len(alert.ActivePeriod)
+//@   loop 1 invariant len(activePeriods) == $i && opts != nil
+//@   loop 2 invariant opts != nil && informedRoutes != nil && informedRoutesFromTripIDs != nil
+//@   loop 2 invariant forall r string :: has(informedRoutesFromTripIDs, r) ==> informedRoutesFromTripIDs[r] != nil
+//@   loop 2 invariant forall k int :: 0 <= k && k < len(informedEntities) ==> informsSomething(informedEntities[k]) && (informedEntities[k].TripID != nil ==> identifiable(informedEntities[k].TripID))
+//@   loop 2 step len(informedEntities) == athead(2, len(informedEntities)) || (len(informedEntities) == athead(2, len(informedEntities)) + 1 && transcribes(informedEntities[len(informedEntities) - 1], alert.InformedEntity[athead(2, $i)]))
+//@   loop 2 step len(informedEntities) == athead(2, len(informedEntities)) + 1 || !(alert.InformedEntity[athead(2, $i)].AgencyId != nil || alert.InformedEntity[athead(2, $i)].RouteId != nil || alert.InformedEntity[athead(2, $i)].StopId != nil || parseRouteType_GTFSRealtime(alert.InformedEntity[athead(2, $i)].RouteType) != RouteType_Unknown)
+//@   loop 2 step [trips-only-grow] len(trips) >= athead(2, len(trips)) && len(trips) <= athead(2, len(trips)) + 1
+//@   loop 2 step [identifiable-trip-is-returned] len(informedEntities) == athead(2, len(informedEntities)) + 1 && informedEntities[len(informedEntities) - 1].TripID != nil ==> len(trips) == athead(2, len(trips)) + 1 && trips[len(trips) - 1].ID == *informedEntities[len(informedEntities) - 1].TripID && !trips[len(trips) - 1].IsEntityInMessage
+//@   loop 2 step [explicit-route-recorded] alert.InformedEntity[athead(2, $i)].RouteId != nil ==> informedRoutes[*alert.InformedEntity[athead(2, $i)].RouteId]
+//@   loop 2 step [explicit-routes-kept] forall r string :: athead(2, informedRoutes[r]) ==> informedRoutes[r]
+//@   loop 2 step [route-only-descriptor-recorded] routeOnly(alert.InformedEntity[athead(2, $i)]) ==> has(informedRoutesFromTripIDs, *alert.InformedEntity[athead(2, $i)].Trip.RouteId) && (alert.InformedEntity[athead(2, $i)].Trip.DirectionId == nil ==> informedRoutesFromTripIDs[*alert.InformedEntity[athead(2, $i)].Trip.RouteId][DirectionID_False] && informedRoutesFromTripIDs[*alert.InformedEntity[athead(2, $i)].Trip.RouteId][DirectionID_True]) && (alert.InformedEntity[athead(2, $i)].Trip.DirectionId != nil ==> informedRoutesFromTripIDs[*alert.InformedEntity[athead(2, $i)].Trip.RouteId][parseDirectionID_GTFSRealtime(alert.InformedEntity[athead(2, $i)].Trip.DirectionId)])
+//@   loop 2 step [recorded-direction-0-kept] forall r string :: athead(2, has(informedRoutesFromTripIDs, r) && informedRoutesFromTripIDs[r][DirectionID_False]) ==> has(informedRoutesFromTripIDs, r) && informedRoutesFromTripIDs[r][DirectionID_False]
+//@   loop 2 step [recorded-direction-1-kept] forall r string :: athead(2, has(informedRoutesFromTripIDs, r) && informedRoutesFromTripIDs[r][DirectionID_True]) ==> has(informedRoutesFromTripIDs, r) && informedRoutesFromTripIDs[r][DirectionID_True]
+//@   loop 4 step [fallback-suppressed-by-explicit-route] informedRoutes[routeIDsFromTripIDs[athead(4, $i)]] ==> informedEntities == athead(4, informedEntities)
+//@   loop 4 step [fallback-entity] !informedRoutes[routeIDsFromTripIDs[athead(4, $i)]] ==> len(informedEntities) == athead(4, len(informedEntities)) + 1 && fallbackFor(informedEntities[len(informedEntities) - 1], routeIDsFromTripIDs[athead(4, $i)], informedRoutesFromTripIDs[routeIDsFromTripIDs[athead(4, $i)]])
+//@   loop 3 invariant forall k int :: 0 <= k && k < len(informedEntities) ==> informsSomething(informedEntities[k]) && (informedEntities[k].TripID != nil ==> identifiable(informedEntities[k].TripID))
+//@   loop 4 invariant forall k int :: 0 <= k && k < len(informedEntities) ==> informsSomething(informedEntities[k]) && (informedEntities[k].TripID != nil ==> identifiable(informedEntities[k].TripID))
